@@ -3250,7 +3250,9 @@ static int expand_define () {
               if (c == ',' && !parcnt && !dquote && !squote)
                 {
                   *q++ = 0;
-                  args[++n] = q;
+                  if (++n == NARGS)
+                    break;	/* args[] has no slot left; reported below */
+                  args[n] = q;
                 }
               else if (parcnt < 0)
                 {
